@@ -397,6 +397,9 @@ def o_c11(tr):
                             yield {"oracle": "release-amount", "signature": "not-min(deposit,rate*secs)", "detail": "paid %d, deposit %d rate %d secs %d" % (total, st["deposit"][0], st["rate"], secs)}
         for k, s in d.streams.items():
             # solvency: deposit sustains the rate from last release to advertised zero time
+            # the theorem's disjunct: an empty stream whose zero time has passed is harmless
+            if s["deposit"][0] == 0 and s["zero"] <= b["time"]:
+                continue
             if s["zero"] > s["last"] and s["deposit"][0] < s["rate"] * ((s["zero"] - s["last"]) // 10**9):
                 yield {"oracle": "solvency", "signature": "deposit<rate*(zero-last)", "detail": "%s deposit %d rate %d last %d zero %d" % (k, s["deposit"][0], s["rate"], s["last"], s["zero"])}
 
@@ -404,7 +407,7 @@ def o_c11(tr):
 def o_c12(tr):
     for prev, b, d in states(tr):
         for tx in b["txs"]:
-            if any(k.startswith("str.") for k in tx["kinds"]) and tx["result"] == "panic":
+            if tx["kinds"] and all(k.startswith("str.") for k in tx["kinds"]) and tx["result"] == "panic":
                 yield {"oracle": "stream-op-panics", "signature": ",".join(tx["kinds"]), "detail": tx["line"][:200]}
 
 
